@@ -772,7 +772,7 @@ func leanStrList(l []string) string {
 
 func leanStrEsc(s string) string {
 	var sb strings.Builder
-	sb.WriteByte('"')
+	sb.WriteString("txt% \"")
 	for _, r := range s {
 		switch {
 		case r == '"':
@@ -805,8 +805,14 @@ func emitPlugins(repo, out string) error {
 	sb.WriteString("-- GENERATED by go/extract (plugins.go) from the repository under check. Do not edit.\nimport RoModel.PluginFacts\nnamespace RoGen.Plugins\nopen Ro.PluginFacts\n\n")
 	sb.WriteString("def table : List Row := [\n")
 	for i, r := range rows {
-		sb.WriteString(fmt.Sprintf("  { plugin := %s, name := %s, params := %s, lift := .%s,\n    setup := %s,\n    body := %s }",
-			leanStrEsc(r.Plugin), leanStrEsc(r.Name), leanStrList(r.Params), liftCtor(r.Lift), leanStrList(r.Setup), leanStrList(r.Body)))
+		unknown := ""
+		for _, st := range append(append([]string{}, r.Setup...), r.Body...) {
+			if strings.Contains(st, "?") {
+				unknown = ", unknown := true"
+			}
+		}
+		sb.WriteString(fmt.Sprintf("  { plugin := %s, name := %s, params := %s, lift := .%s,\n    setup := %s,\n    body := %s%s }",
+			leanStrEsc(r.Plugin), leanStrEsc(r.Name), leanStrList(r.Params), liftCtor(r.Lift), leanStrList(r.Setup), leanStrList(r.Body), unknown))
 		if i+1 < len(rows) {
 			sb.WriteString(",\n")
 		} else {
